@@ -199,32 +199,29 @@ Qed.
 Print Assumptions derivation_unique_partial.
 
 (* a text that is not a sentence of the user's grammar is never accepted, for any
-   table, both smart values, any budget (contrapositive of C01.parse_sound_build;
-   hyps_ok is C01's executable validator of the factorization) *)
+   table, both smart values, any budget (contrapositive of C01.parse_sound_constructor,
+   imported from coq/C01, not re-proved) *)
 Theorem ll1_reject : forall ug terminals smart start p k body e t,
   build ug terminals smart start = Ok p ->
-  C01.Run.hyps_ok ug start p = true ->
   (forall b, In b body -> tname b <> END_TOKEN) ->
   ~ in_language (ugram ug) (p_terminals p) start (map tok_pair body) ->
   p_parse p k (body ++ [e]) <> Ok t.
-Proof. exact ll1_reject_l. Qed.
+Proof. exact ll1_reject_c. Qed.
 Print Assumptions ll1_reject.
 
 (* an accepted text is a sentence and the returned tree is a derivation of it *)
 Theorem parse_returns_derivation : forall ug terminals smart start p k body e t,
   build ug terminals smart start = Ok p ->
-  C01.Run.hyps_ok ug start p = true ->
   (forall b, In b body -> tname b <> END_TOKEN) ->
   p_parse p k (body ++ [e]) = Ok t ->
   Deriv (ugram ug) (p_terminals p) start (erase t) (map tok_pair body).
-Proof. exact parse_ok_deriv. Qed.
+Proof. exact parse_ok_deriv_c. Qed.
 Print Assumptions parse_returns_derivation.
 
 (* together: with an identity factorization and a conflict-free table the
    accepted language is exactly the language of the user's grammar *)
 Theorem ll1_language_exact_partial : forall ug terminals smart start p body e,
   build ug terminals smart start = Ok p ->
-  C01.Run.hyps_ok ug start p = true ->
   p_sfxs p = [] -> p_grammar p = ugram ug ->
   wf_grammar (p_grammar p) (p_terminals p) (p_start p) = true ->
   is_ambiguous (p_tables p) = false ->
@@ -232,9 +229,9 @@ Theorem ll1_language_exact_partial : forall ug terminals smart start p body e,
   ((exists k t, p_parse p k (body ++ [e]) = Ok t) <->
    in_language (ugram ug) (p_terminals p) start (map tok_pair body)).
 Proof.
-  intros ug terminals smart start p body e HB HH Hs Hg Hwf HA Hbody He. split.
+  intros ug terminals smart start p body e HB Hs Hg Hwf HA Hbody He. split.
   - intros [k [t HP]].
-    exists (erase t). apply (parse_ok_deriv ug terminals smart start p k body e t); auto.
+    exists (erase t). apply (parse_ok_deriv_c ug terminals smart start p k body e t); auto.
   - intros [d D]. rewrite <- Hg in D.
     destruct (ll1_complete_build ug terminals smart start p body e d HB Hs Hwf HA He D) as [k0 K].
     destruct (K k0 (le_n _)) as [t [P _]]. exists k0, t. exact P.
@@ -313,7 +310,6 @@ Example ex_sentence : exists p t,
 Proof.
   eexists. eexists. split; [vm_compute; reflexivity|]. split; [vm_compute; reflexivity|].
   eapply (parse_returns_derivation ex_ug ex_terms false xE _ 8 ex_body ex_end).
-  - vm_compute. reflexivity.
   - vm_compute. reflexivity.
   - intros b [<-|[<-|[<-|[<-|[]]]]]; discriminate.
   - vm_compute. reflexivity.
